@@ -51,7 +51,7 @@ pub(crate) fn open(
     path: &str,
     settings: SerialSettings,
 ) -> tokio_serial::Result<crate::verif::MaybeSerial> {
-    if let Some(res) = crate::verif::open_port(path) {
+    if let Some(res) = crate::verif::open_port(path, settings) {
         return res;
     }
     let builder = settings.apply(tokio_serial::new(path, settings.baud_rate));
